@@ -40,6 +40,9 @@ KNOWN_OPS = {
     "FSMOperateRaise": ("Raise", 0, 0),
 }
 
+STATUS_KEEPING = {"FSMOperateMoveAndCleanCache", "FSMOperateAddAndHandleCache", "FSMOperateStartParenthesis",
+                  "FSMOperateEndParenthesis", "FSMOperateStartSlice", "FSMOperateEndSlice", "FSMOperateRaise"}
+
 OTHER_SAMPLES = [0xE9, 0x4E2D, 0x1F600, 0x7F, 0x0D, 0x01, 0x3000 + 1, 0xA0]
 
 
@@ -126,9 +129,15 @@ def dump(flags: int):
                 ch = end_marker if inp is None else chr(inp)
                 del record[:]
                 try:
-                    mcls().handle(Mem(s), ch)
+                    mem = Mem(s)
+                    mcls().handle(mem, ch)
                     if len(record) != 1:
                         raise RuntimeError(f"handle executed {len(record)} operations")
+                    if mem.status != s and record[0][0] in STATUS_KEEPING:
+                        # handle() itself changed the status and the operation would not overwrite it: not expressible
+                        raise RuntimeError("handle() changes memory.status around a status-keeping operation (fail closed)")
+                    if (mem.text, mem.pos_start, mem.pos_now, mem.stack) != ("", 0, 0, [[]]):
+                        raise RuntimeError("handle() writes the memory outside an operation (fail closed)")
                     row.append(record[0])
                 except KeyError:
                     row.append(("<nocell>", {}))
